@@ -57,10 +57,10 @@ Theorem result_sound : forall es k e p r, nth_error es k = Some e -> In (OCb p r
 Proof. exact m_result_sound. Qed.
 Print Assumptions result_sound.
 
-(* Each arriving Data resolves all pending Interests it satisfies: an Interest expressed before event k, not called back
-   before k, and satisfied by the Data arriving at k, is called back at k with that Data. *)
+(* Each arriving Data resolves all pending Interests it satisfies: an Interest expressed before event k (s_opt = false: its
+   Express did not report a Send error), not called back before k, and satisfied by the Data arriving at k, is called back at k with that Data. *)
 Theorem data_resolves_all : forall es k dn dd i, nth_error es k = Some (EData dn dd) ->
-  In i (expressed (map sev_of (firstn k es))) -> ~ In (s_pid i) (hist_cbs (hist init (firstn k es))) ->
+  In i (expressed (map sev_of (firstn k es))) -> s_opt i = false -> ~ In (s_pid i) (hist_cbs (hist init (firstn k es))) ->
   satisfies i dn dd = true -> In (OCb (s_pid i) (RData dn dd)) (obs_at es k).
 Proof. exact m_data_resolves_all. Qed.
 Print Assumptions data_resolves_all.
@@ -128,7 +128,7 @@ Proof. exact acc_at_most_once. Qed.
 Print Assumptions oracle_sound_at_most_once.
 
 Theorem oracle_sound_data_resolves_all : forall h sp k dn dd o i, spec_run sinit h = inl sp -> nth_error h k = Some (SData dn dd, o) ->
-  In i (expressed (map fst (firstn k h))) -> ~ In (s_pid i) (hist_cbs (firstn k h)) -> satisfies i dn dd = true ->
+  In i (expressed (map fst (firstn k h))) -> s_opt i = false -> ~ In (s_pid i) (hist_cbs (firstn k h)) -> satisfies i dn dd = true ->
   In (OCb (s_pid i) (RData dn dd)) o.
 Proof. exact acc_data_resolves_all. Qed.
 Print Assumptions oracle_sound_data_resolves_all.
